@@ -63,6 +63,9 @@ type Scn struct {
 	ExpectLog  []string          `json:"expect_log"`      // inspection names that must have run (in order) when accepted
 	ForbidLog  []string          `json:"forbid_log"`      // inspection names that must never run
 	Level      int               `json:"level"`           // nesting level (0 = root)
+	History    []map[string]string `json:"history,omitempty"` // c10: parameter dictionaries of successive verifications on the SAME objects
+	Reps       int               `json:"reps,omitempty"`    // c10: repetitions of every verification
+	CertStep   int               `json:"cert_step,omitempty"` // c10: index+1 of the step that also authorises a certificate functionary
 	Seed       uint64            `json:"seed"`
 }
 
@@ -147,6 +150,11 @@ func buildLayout(sc *Scn, runDirPrefix string) intoto.Layout {
 			s.ExpectedProducts = append(s.ExpectedProducts, []string{"DELETE", markerize("src/b.c", sc.Params)})
 		}
 		s.ExpectedProducts = append(s.ExpectedProducts, []string{"MATCH", "*", "WITH", "MATERIALS", "FROM", st.Name}, []string{"DISALLOW", "*"})
+		if sc.CertStep == i+1 && certCtx != nil {
+			s.CertificateConstraints = []intoto.CertificateConstraint{{CommonName: "alice", Roots: []string{"*"},
+				DNSNames: []string{}, Emails: []string{}, Organizations: []string{}, URIs: []string{}}}
+			l.RootCas = map[string]intoto.Key{certCtx.root.Key.KeyID: certCtx.root.Key}
+		}
 		l.Steps = append(l.Steps, s)
 	}
 	last := sc.Steps[len(sc.Steps)-1].Name
@@ -171,6 +179,14 @@ func buildLayout(sc *Scn, runDirPrefix string) intoto.Layout {
 }
 
 var logPath string // inspection commands append their name here
+
+// certificate functionary of a c10 scenario (fresh per materialisation)
+type certInfo struct {
+	root *lib.CA
+	leaf lib.Leaf
+}
+
+var certCtx *certInfo
 
 func inspCommand(in InspSpec) []string {
 	switch in.Kind {
@@ -282,6 +298,11 @@ func writeChain(sc *Scn, dir string, start map[string]string, r *lib.Rng) built 
 			m := wrap(sc, mkLink(st.Name, mats, prods, who))
 			mustSign(m, kp.Priv)
 			must(m.Dump(filepath.Join(dir, linkFile(st.Name, kp.Pub.KeyID))))
+		}
+		if sc.CertStep == i+1 && certCtx != nil {
+			m := wrap(sc, mkLink(st.Name, mats, prods, "alice"))
+			mustSign(m, certCtx.leaf.Key)
+			must(m.Dump(filepath.Join(dir, linkFile(st.Name, certCtx.leaf.Key.KeyID))))
 		}
 		cur = prods
 	}
@@ -437,6 +458,7 @@ var defects = map[string][]string{
 		"junk-uncounted-unauthorised", "extra-agreeing-link", "byproducts-differ"},
 	"c06": {"none", "expired-long", "expired-2s", "future-1h", "garbage", "empty", "rfc3339-offset", "date-only", "year-9999", "fraction", "lowercase"},
 	"c08": {"sub-ok", "sub-ok", "sub-badsig", "sub-expired", "sub-missing-link", "sub-rule-violation", "sub-unauthorised", "sub-nested", "sub-nested-defect", "sub-summary-mismatch"},
+	"c10": {"history-same-params", "history-diff-params", "history-no-params", "history-mixed", "mixed-cert-key", "mixed-cert-key", "summary-byproducts", "direct-unclean"},
 	"c09": {"none", "insp-fail", "insp-fail-255", "insp-missing", "insp-empty", "product-modified", "product-added", "product-removed",
 		"insp-touch-allowed", "insp-touch-disallowed", "three-inspections", "second-fails"},
 }
@@ -615,6 +637,42 @@ func genScenario(r *lib.Rng, focus string) *Scn {
 			// the sublayout is the only evidence for that step unless threshold is met otherwise: force it to be needed
 			st.Threshold = len(st.Signers)
 		}
+	case "c10":
+		sc.Reps = 8
+		sc.Entry = "plain"
+		good := map[string]string{"OUT": "out", "SRC": "src"}
+		bad := map[string]string{"OUT": "wrong", "SRC": "src"}
+		switch d {
+		case "history-same-params":
+			sc.Params = good
+			sc.History = []map[string]string{good, good, good}
+		case "history-diff-params":
+			sc.Params = good
+			sc.History = []map[string]string{good, bad, good, bad}
+		case "history-no-params":
+			sc.Params = nil
+			sc.History = []map[string]string{nil, nil}
+		case "history-mixed":
+			sc.Params = good
+			sc.History = []map[string]string{bad, good, {"OUT": "out", "SRC": "src", "bad name": "x"}, good}
+		case "mixed-cert-key":
+			// one step authorises a key AND a certificate constraint, threshold 2, one link each
+			i := r.Intn(len(sc.Steps))
+			st := &sc.Steps[i]
+			st.Keys = st.Keys[:1]
+			st.Signers = st.Keys[:1]
+			st.Threshold = 2
+			sc.CertStep = i + 1
+			sc.Reps = 24
+			sc.History = []map[string]string{sc.Params, sc.Params}
+		case "summary-byproducts":
+			i := len(sc.Steps) - 1
+			needTwo(i)
+			sc.Reps = 24
+			sc.History = []map[string]string{sc.Params}
+		case "direct-unclean":
+			sc.History = []map[string]string{sc.Params}
+		}
 	case "c09":
 		switch d {
 		case "none":
@@ -682,6 +740,12 @@ func materialise(sc *Scn, root string, r *lib.Rng) *world {
 	if sc.Entry == "dir" {
 		w.runDirArg = w.prodDir
 	}
+	certCtx = nil
+	if sc.CertStep > 0 {
+		sc.Wrapper = "legacy" // DSSE envelopes carry no certificate
+		root := lib.NewCA("verif-root", nil, lib.CertOpts{})
+		certCtx = &certInfo{root: root, leaf: root.NewLeaf(lib.CertOpts{CN: "alice"})}
+	}
 	l := buildLayout(sc, w.runDirArg)
 	// links
 	b := writeChain(sc, w.linkDir, initialFiles(), r)
@@ -736,7 +800,9 @@ func applyLinkDefects(sc *Scn, w *world, r *lib.Rng) {
 		applySubDefects(sc, w)
 		return
 	}
-	if sc.Focus != "c05" {
+	if sc.Focus == "c10" && sc.Defect == "summary-byproducts" {
+		sc.DefectArg = strconv.Itoa(len(sc.Steps) - 1)
+	} else if sc.Focus != "c05" {
 		return
 	}
 	st := sc.Steps[stepIndex(sc)]
@@ -767,7 +833,7 @@ func applyLinkDefects(sc *Scn, w *world, r *lib.Rng) {
 			k := anyKey(l.Products)
 			l.Products[k] = intoto.HashObj{"sha256": l.Products[k]["sha256"], "sha512": "00"}
 		})
-	case "byproducts-differ":
+	case "byproducts-differ", "summary-byproducts":
 		resign(func(l *intoto.Link) { l.ByProducts["stdout"] = "completely different output"; l.Command = []string{"other"} })
 	case "junk-uncounted-badsig", "junk-uncounted-unauthorised":
 		// a further link file for this step, with arbitrary other artifacts, that must not count
@@ -1017,6 +1083,154 @@ func runImpl(sc *Scn, w *world) (o obs) {
 	return
 }
 
+func snapshot(lm intoto.Metadata, keys map[string]intoto.Key, params map[string]string) string {
+	a, _ := json.Marshal(lm.GetPayload())
+	b, _ := json.Marshal(lm.Sigs())
+	c, _ := json.Marshal(keys)
+	d, _ := json.Marshal(params)
+	return string(a) + string(b) + string(c) + string(d)
+}
+
+// runHistory verifies the SAME in-memory objects once per entry of sc.History (each entry sc.Reps times)
+func runHistory(sc *Scn, w *world) (out string) {
+	cwd, _ := os.Getwd()
+	defer os.Chdir(cwd)
+	defer func() {
+		if rec := recover(); rec != nil {
+			out = "PANIC:" + fmt.Sprint(rec)
+		}
+	}()
+	lm, err := intoto.LoadMetadata(w.layoutPath)
+	must(err)
+	keys := w.verifierKeys
+	os.Chdir(w.prodDir)
+	var parts []string
+	flags := ""
+	for _, params := range sc.History {
+		before := snapshot(lm, keys, params)
+		first := ""
+		firstFull := ""
+		for rep := 0; rep < sc.Reps; rep++ {
+			cleanInspectionLinks(w)
+			os.Remove(logPath)
+			var o obs
+			sum, err := intoto.InTotoVerify(lm, keys, w.linkDir, "summary-name", params, nil, false)
+			o.Log = readLog()
+			full := ""
+			if err != nil {
+				o.Verdict = "reject"
+			} else {
+				o.Verdict = "accept"
+				if l, ok := sum.GetPayload().(intoto.Link); ok {
+					o.Summary = lib.ShowLinkCore(l)
+					fb, _ := json.Marshal(l)
+					full = string(fb)
+				}
+			}
+			if rep == 0 {
+				first, firstFull = o.String(), full
+			} else if o.String() != first {
+				flags += " NONDETERMINISTIC-VERDICT(" + first + " vs " + o.String() + ")"
+			} else if full != firstFull && !strings.Contains(flags, "NONDETERMINISTIC-SUMMARY") {
+				flags += " NONDETERMINISTIC-SUMMARY(by-products/command of the summary link differ between identical runs)"
+			}
+			if snapshot(lm, keys, params) != before && !strings.Contains(flags, "MUTATED") {
+				flags += " MUTATED(caller's layout/keys/parameters changed by verification)"
+			}
+		}
+		// a freshly loaded copy must give the same outcome
+		cleanInspectionLinks(w)
+		os.Remove(logPath)
+		lm2, err := intoto.LoadMetadata(w.layoutPath)
+		must(err)
+		var o2 obs
+		sum2, err2 := intoto.InTotoVerify(lm2, keys, w.linkDir, "summary-name", params, nil, false)
+		o2.Log = readLog()
+		if err2 != nil {
+			o2.Verdict = "reject"
+		} else {
+			o2.Verdict = "accept"
+			if l, ok := sum2.GetPayload().(intoto.Link); ok {
+				o2.Summary = lib.ShowLinkCore(l)
+			}
+		}
+		if o2.String() != first && !strings.Contains(flags, "DIFFERS-FROM-FRESH") {
+			flags += " DIFFERS-FROM-FRESH(" + first + " vs fresh " + o2.String() + ")"
+		}
+		parts = append(parts, first)
+	}
+	cleanInspectionLinks(w)
+	return strings.Join(parts, ";") + flags
+}
+
+func historyOracle(sc *Scn, impl string) string {
+	if strings.HasPrefix(impl, "PANIC") || strings.Contains(impl, "NONDETERMINISTIC") || strings.Contains(impl, "MUTATED") || strings.Contains(impl, "DIFFERS-FROM-FRESH") {
+		return "VIOLATES: " + impl
+	}
+	parts := strings.Split(impl, ";")
+	for i, params := range sc.History {
+		want := "reject"
+		a, _ := json.Marshal(params)
+		b, _ := json.Marshal(sc.Params)
+		if string(a) == string(b) || (len(params) == 0 && len(sc.Params) == 0) {
+			want = "accept"
+		}
+		if i < len(parts) && !strings.HasPrefix(parts[i], want) {
+			return fmt.Sprintf("VIOLATES: verification %d with parameters %s expected %s, got %s", i, a, want, parts[i])
+		}
+	}
+	return impl
+}
+
+// direct calls of VerifyArtifacts on caller-held links with unclean, colliding artifact names
+func directUnclean(r *lib.Rng) lib.Case {
+	h1, h2 := hobj("one"), hobj("two")
+	names := [][2]string{{"a", "./a"}, {"d/x", "d//x"}, {"d/x", "d/./x"}, {"x", "y/../x"}}
+	pair := names[r.Intn(len(names))]
+	mk := func() (map[string]intoto.HashObj, map[string]intoto.HashObj) {
+		src := map[string]intoto.HashObj{pair[0]: h1, pair[1]: h2, "keep": h1}
+		dst := map[string]intoto.HashObj{pair[0]: []intoto.HashObj{h1, h2}[r.Intn(2)], "keep": h1}
+		return src, dst
+	}
+	src, dst := mk()
+	item := intoto.Step{Type: "step", SupplyChainItem: intoto.SupplyChainItem{Name: "s", ExpectedMaterials: [][]string{{"MATCH", "*", "WITH", "PRODUCTS", "FROM", "d"}, {"DISALLOW", "*"}}}}
+	srcLink := intoto.Link{Type: "link", Name: "s", Materials: src, Products: map[string]intoto.HashObj{}}
+	dstLink := intoto.Link{Type: "link", Name: "d", Materials: map[string]intoto.HashObj{}, Products: dst}
+	meta := map[string]intoto.Metadata{"s": &intoto.Metablock{Signed: srcLink}, "d": &intoto.Metablock{Signed: dstLink}}
+	beforeB, _ := json.Marshal([]interface{}{srcLink, dstLink})
+	var res []string
+	flags := ""
+	for i := 0; i < 24; i++ {
+		v := lib.Recover(func() string {
+			if err := intoto.VerifyArtifacts([]interface{}{item}, meta); err != nil {
+				return "ERR"
+			}
+			return "OK"
+		})
+		res = append(res, v)
+		after, _ := json.Marshal([]interface{}{srcLink, dstLink})
+		if string(after) != string(beforeB) && flags == "" {
+			flags = " MUTATED(caller's artifact maps changed by VerifyArtifacts)"
+		}
+	}
+	impl := res[0]
+	for _, x := range res {
+		if x != impl {
+			impl = "NONDETERMINISTIC(" + strings.Join(res, ",") + ")"
+			break
+		}
+	}
+	impl += flags
+	oracle := impl
+	if strings.Contains(impl, "NONDET") || strings.Contains(impl, "MUTATED") || strings.Contains(impl, "PANIC") {
+		oracle = "VIOLATES: " + impl
+	}
+	coq := "(show_res (fun _ : unit => (@nil N)) (verify_artifacts_go [(" + lib.CoqStr("s") + ", " + lib.CoqStrListList(item.ExpectedMaterials) + ", (@nil (list str)))] [(" +
+		lib.CoqStr("d") + ", " + lib.CoqLink(dstLink) + "); (" + lib.CoqStr("s") + ", " + lib.CoqLink(srcLink) + ")]))"
+	in := map[string]interface{}{"src": src, "dst": dst, "rule": item.ExpectedMaterials}
+	return lib.Case{Klass: "c10/direct-unclean", Input: lib.MustJSON(in), Impl: impl, Oracle: oracle, CoqModel: coq}
+}
+
 func (o obs) String() string { return o.Verdict + "|" + o.Summary + "|" + strings.Join(o.Log, ",") }
 
 // oracle from generator ground truth; "" components are not claimed
@@ -1120,7 +1334,17 @@ func indepVerify(path string, m intoto.Metadata, kp lib.KeyPair) bool {
 	return false
 }
 
-func coqModel(sc *Scn, w *world) string {
+func coqHistory(sc *Scn, w *world) string {
+	var parts []string
+	for _, p := range sc.History {
+		parts = append(parts, coqModelP(sc, w, p))
+	}
+	return "(join [59] " + lib.CoqList(parts, "str") + ")"
+}
+
+func coqModel(sc *Scn, w *world) string { return coqModelP(sc, w, sc.Params) }
+
+func coqModelP(sc *Scn, w *world, params map[string]string) string {
 	dir := lib.ReadLinkDir(w.linkDir, "")
 	var truths []string
 	add := func(tag, path string, m intoto.Metadata) {
@@ -1131,6 +1355,30 @@ func coqModel(sc *Scn, w *world) string {
 			kp := pk(pn)
 			if indepVerify(path, m, kp) {
 				truths = append(truths, lib.CoqPair(lib.CoqStr(tag), lib.CoqStr(kp.Pub.KeyID)))
+			}
+		}
+		if certCtx != nil {
+			ck, err := lib.LoadKeyPEM(certCtx.leaf.CertPEM)
+			must(err)
+			kp := lib.KeyPair{Signer: certCtx.leaf.Signer, Pub: ck}
+			if indepVerify(path, m, kp) {
+				truths = append(truths, lib.CoqPair(lib.CoqStr(tag), lib.CoqStr(ck.KeyID)))
+			}
+		}
+	}
+	// certificate tables: certificate text -> key loaded from it; (step, key id) pairs accepted by CheckCertConstraints
+	var tc, tcc []string
+	if certCtx != nil {
+		ck, _ := lib.LoadKeyPEM(certCtx.leaf.CertPEM)
+		tc = append(tc, lib.CoqPair(lib.CoqStr(string(certCtx.leaf.CertPEM)), lib.CoqKey(ck)))
+		if l, ok := w.layoutMeta.GetPayload().(intoto.Layout); ok {
+			rootPool, interPool, err := intoto.LoadLayoutCertificates(l, nil)
+			if err == nil {
+				for _, st := range l.Steps {
+					if st.CheckCertConstraints(ck, l.RootCAIDs(), rootPool, interPool) == nil {
+						tcc = append(tcc, lib.CoqPair(lib.CoqStr(st.Name), lib.CoqStr(ck.KeyID)))
+					}
+				}
 			}
 		}
 	}
@@ -1161,14 +1409,14 @@ func coqModel(sc *Scn, w *world) string {
 		prefix = w.prodDir
 	}
 	return "(e2e_run " + strconv.FormatInt(time.Now().UnixNano(), 10) + "%Z " +
-		lib.CoqList(truths, "str * str") + " " +
+		lib.CoqList(truths, "str * str") + " " + lib.CoqList(tc, "str * key") + " " + lib.CoqList(tcc, "str * str") + " " +
 		lib.CoqList(cmds, "list str * cmdkind") + " " +
 		lib.CoqStr(prefix) + " " + lib.CoqList(files, "str * str") + " " +
 		lib.CoqLinkDir(dir) + " " +
 		lib.CoqEnv(w.layoutMeta, "LAYOUT") + " " +
 		coqKeyMapOrdered(sc.Verifiers) + " " +
 		lib.CoqStr("summary-name") + " " +
-		lib.CoqStrMap(lib.SortedKeys(sc.Params), sc.Params) + ")"
+		lib.CoqStrMap(lib.SortedKeys(params), params) + ")"
 }
 
 func main() {
@@ -1189,7 +1437,17 @@ func main() {
 			sc := genScenario(rr, focus)
 			sc.Seed = lib.Seed()
 			root := filepath.Join(work, fmt.Sprintf("run-%d", i))
+			if sc.Defect == "direct-unclean" {
+				wr.Put(directUnclean(rr))
+				continue
+			}
 			w := materialise(sc, root, rr)
+			if len(sc.History) > 0 {
+				impl := runHistory(sc, w)
+				wr.Put(lib.Case{Klass: sc.Klass, Input: lib.MustJSON(sc), Impl: impl, Oracle: historyOracle(sc, impl), CoqModel: coqHistory(sc, w)})
+				os.RemoveAll(root)
+				continue
+			}
 			o := runImpl(sc, w)
 			// determinism: run again several times on freshly loaded objects
 			for k := 0; k < 3; k++ {
@@ -1223,6 +1481,12 @@ func main() {
 		root := filepath.Join(os.Args[3], "replay")
 		os.Setenv("VERIF_SEED", strconv.FormatUint(sc.Seed, 10))
 		w := materialise(sc, root, lib.NewRng(1))
+		if len(sc.History) > 0 {
+			impl := runHistory(sc, w)
+			fmt.Println("impl:   ", impl)
+			fmt.Println("oracle: ", historyOracle(sc, impl))
+			return
+		}
 		o := runImpl(sc, w)
 		fmt.Println("impl:   ", o.String(), o.Err)
 		fmt.Println("expect: ", sc.Expect, sc.ExpectLog, "defect:", sc.Defect)
